@@ -318,7 +318,8 @@ def make_consumer_case(rng, scenario, calls=None, route=None, invalid=None):
     if route == "client":
         force = {}
         if scenario == "attempts_commit":
-            spec["commit_script"] = [14] * 8
+            spec["retry_code"] = rng.choice([14, 16])
+            spec["commit_script"] = [spec["retry_code"]] * 8
             force = {"set_retry_max_attempts": [[0], [1], [2], [3], [5]]}
         if scenario == "attempts_build":
             spec["coordinator_script"] = {b"g": [15] * 8, b"grp-2": [15] * 8}
@@ -378,8 +379,11 @@ def make_client_case(rng, scenario):
         if rng.random() < 0.5:
             spec["coordinator_script"] = {b"g": [15] * 12}
         else:
-            spec["commit_script"] = [14] * 8
-            spec["group_fetch_script"] = [14] * 8
+            # either retryable answer of the operation itself: still loading (14), not the coordinator (16; every repetition is
+            # preceded by a fresh lookup, which the cluster answers with the same broker)
+            spec["retry_code"] = rng.choice([14, 16])
+            spec["commit_script"] = [spec["retry_code"]] * 8
+            spec["group_fetch_script"] = [spec["retry_code"]] * 8
         force = {"set_retry_max_attempts": [[0], [1], [2], [3], [5]], "set_group_offset_storage": [[0], [1]]}
     setters = client_setters(rng, invalid=rng.random() < 0.3, force=force)
     ops = [T("client_new", [[H1, H2]])]
@@ -626,7 +630,7 @@ def oracle_client(case, recs, cl):
             if m["scenario"] == "client_attempts":
                 scripted_lookup = "coordinator_script" in spec
                 n = len(look) if scripted_lookup else len(main)
-                want_code = 15 if scripted_lookup else 14
+                want_code = 15 if scripted_lookup else spec.get("retry_code", 14)
                 if n != L or res != T("err", [T("kafka", [want_code])]):
                     fails.append("C16: client: retry_max_attempts %d: %s made %d %s attempts against an always-%d answer and returned %s" %
                                  (cfg["attempts"], op.name, n, "lookup" if scripted_lookup else api, want_code, dumps(res)[:60]))
@@ -784,9 +788,10 @@ def oracle_built(case, recs, cl):
                 fails.append("C16: %s: commit_consumed must send offset_commit v%d for group %r, saw %s" %
                              (tag, cfg["storage"], cc["group"], [(q["api_version"], q["body"]["group"]) for q in cm]))
             if m["scenario"] == "attempts_commit":
-                if len(cm) != L or res != T("err", [T("kafka", [14])]):
-                    fails.append("C16: %s: retry_max_attempts %d of the client: commit_consumed made %d attempts against an always-14 answer and returned %s" %
-                                 (tag, cfg["attempts"], len(cm), dumps(res)[:60]))
+                code = spec.get("retry_code", 14)
+                if len(cm) != L or res != T("err", [T("kafka", [code])]):
+                    fails.append("C16: %s: retry_max_attempts %d of the client: commit_consumed made %d attempts against an always-%d answer and returned %s" %
+                                 (tag, cfg["attempts"], len(cm), code, dumps(res)[:60]))
             elif res.name != "ok":
                 fails.append("C16: %s: commit_consumed failed: %s" % (tag, dumps(res)[:60]))
         elif op.name == "send_all":
